@@ -8,3 +8,10 @@ import (
 func contains(s, sub string) bool { return strings.Contains(s, sub) }
 
 type cookieT = http.Cookie
+
+// VerifValidSignature exposes the authenticator's signature check to the cross-service
+// agreement harness in internal/proxy (overlay only).
+func VerifValidSignature(uri, sig, ts, secret string) bool { return validSignature(uri, sig, ts, secret) }
+
+// VerifValidRedirectURI exposes the domain check likewise.
+func VerifValidRedirectURI(uri string, roots []string) bool { return validRedirectURI(uri, roots) }
